@@ -86,6 +86,7 @@ def c19():
         runner.c19_model_stage(res, "ragged", m, cfg)
     runner.c19_model_stage(res, "heap", "MC_Heap", "c19" if Q else "C06.quick")
     runner.c19_trace_stage(res, ["C01", "C02", "C03", "C04", "C05", "C07", "C08", "C09"], 400 if Q else 4000)
+    runner.c19_trace_stage(res, ["C19x"], 300 if Q else 3000)          # cases aimed at the index width: many rows, narrow numpy indices
     return runner.finish(res,
         "The specification has no index-width variable: no level-A operator can depend on it (WidthIrrelevant by construction), so the expected outcome of every "
         "case is the same under both configurations. Every TLC-generated case of the C01-C09 instances and every program of the heap machine is executed twice in "
